@@ -120,6 +120,12 @@ func (s *segment) Store(doc types.Map) error {
 		return errors.WithMessagef(ErrKeyDuplicate, "key: %v", id.Interface())
 	}
 
+	for _, idx := range s.indexes {
+		if err := s.conflict(idx, doc, id); err != nil {
+			return err
+		}
+	}
+
 	s.entries.ReplaceOrInsert(&entry{key: id, value: doc})
 
 	for _, idx := range s.indexes {
@@ -142,6 +148,12 @@ func (s *segment) Swap(doc types.Map) error {
 	old, ok := s.entries.Get(&entry{key: id})
 	if !ok {
 		return errors.WithMessagef(ErrKeyNotFound, "key: %v", id.Interface())
+	}
+
+	for _, idx := range s.indexes {
+		if err := s.conflict(idx, doc, id); err != nil {
+			return err
+		}
 	}
 
 	s.entries.ReplaceOrInsert(&entry{key: id, value: doc})
@@ -239,6 +251,35 @@ func (s *segment) index(idx *index, doc types.Map) error {
 			continue
 		}
 		curr = next.value
+	}
+	return nil
+}
+
+// conflict reports whether storing doc under id would violate the unique index idx,
+// that is, whether another document already holds doc's key in it.
+func (s *segment) conflict(idx *index, doc types.Map, id types.Value) error {
+	if !idx.Unique || (idx.Filter != nil && !idx.Filter(doc)) {
+		return nil
+	}
+
+	curr := idx.nodes
+	var val types.Value
+	for _, key := range idx.Keys {
+		val = doc.Get(key)
+		next, ok := curr.Get(&node{key: val})
+		if !ok {
+			return nil
+		}
+		curr = next.value
+	}
+
+	conflict := false
+	curr.Ascend(func(n *node) bool {
+		conflict = types.Compare(n.key, id) != 0
+		return !conflict
+	})
+	if conflict {
+		return errors.WithMessagef(ErrKeyDuplicate, "key: %v", types.InterfaceOf(val))
 	}
 	return nil
 }
